@@ -1,0 +1,32 @@
+//! Schedule-perturbation hooks for runtime verification.
+//!
+//! Compiled only with `--cfg kolibrie_verif`; absent from normal builds. A harness
+//! installs a callback that is invoked at named points of the stream-processing
+//! threads (after a window content is handed to a worker, before and after a worker
+//! processes it, after the coordinator receives a window result). The callback may
+//! sleep or yield to perturb the thread schedule and may count events to detect
+//! quiescence without relying on wall-clock time.
+
+use std::sync::{Arc, RwLock};
+
+type Hook = dyn Fn(&'static str) + Send + Sync;
+
+static HOOK: RwLock<Option<Arc<Hook>>> = RwLock::new(None);
+
+/// Install the callback invoked at every yield point (replaces a previous one).
+pub fn install(hook: Arc<Hook>) {
+    *HOOK.write().unwrap() = Some(hook);
+}
+
+/// Remove the callback.
+pub fn clear() {
+    *HOOK.write().unwrap() = None;
+}
+
+/// Called by the engine at a named point; a no-op unless a callback is installed.
+pub fn yield_point(site: &'static str) {
+    let hook = HOOK.read().unwrap().clone();
+    if let Some(hook) = hook {
+        hook(site);
+    }
+}
